@@ -185,6 +185,76 @@ template <typename E> struct vec_kind {
     }
 };
 
+// ---------------------------------------------------------------------------------------------
+// utl::static_vector<E,4>
+// ---------------------------------------------------------------------------------------------
+#ifdef C19_SAN
+static const bool C19_UNGUARDED = true;    // let the sanitizers see accesses beyond the fixed buffer
+#else
+static const bool C19_UNGUARDED = false;
+#endif
+static const size_t SVEC_CAP = 4;
+template <typename E> struct svec_peek : utl::static_vector<E, SVEC_CAP> {
+    using base = utl::static_vector<E, SVEC_CAP>;
+    using base::base;
+    svec_peek() : base() {}
+    svec_peek(const svec_peek& o) : base(static_cast<const base&>(o)) {}
+    svec_peek& operator=(const svec_peek& o) { base::operator=(static_cast<const base&>(o)); return *this; }
+    const E* raw() const { return this->buffer.data(); }
+};
+template <typename E> struct svec_kind {
+    using T = E; using C = svec_peek<E>;
+    static const int storage_fill = 0; static const bool unguarded = C19_UNGUARDED;
+    static void ctor(void* p) { new (p) C(); }
+    static void ctorN(void* p, size_t n) { new (p) C(n); }
+    static void ctorV(void* p, const std::vector<T>& v) {
+        switch (v.size()) {
+            case 2: new (p) C(v[0], v[1]); break;
+            case 3: new (p) C(v[0], v[1], v[2]); break;
+            case 4: new (p) C(v[0], v[1], v[2], v[3]); break;
+            default: throw bad_args("ctorV arity");
+        }
+    }
+    static void push(C& c, const T& v) { c.push_back(v); }
+    static void pushAt(C& c, size_t i) { c.push_back(c[i]); }
+    static void resize(C& c, size_t n) { c.resize(n); }
+    static size_t size(const C& c) { return (size_t)c.size(); }
+    static size_t limit(const C&) { return SVEC_CAP; }
+    static const T& get(const C& c, size_t i) { return c.at(i); }
+    static void set(C& c, size_t i, const T& v) { c[i] = v; }
+    static std::string intern(const C& c) {
+        std::string s = std::to_string(SVEC_CAP) + ":";
+        for (size_t i = c.size(), k = 0; i < SVEC_CAP; i++, k++) { if (k) s += ","; s += cell<T>(c.raw()[i]); }
+        return s;
+    }
+};
+
+// ---------------------------------------------------------------------------------------------
+// utl::array<E,3>
+// ---------------------------------------------------------------------------------------------
+static const size_t ARR_N = 3;
+template <typename E> struct arr_kind {
+    using T = E; using C = utl::array<E, ARR_N>;
+    static const int storage_fill = 0; static const bool unguarded = C19_UNGUARDED;
+    static void ctor(void* p) { new (p) C{}; }
+    static void ctorN(void* p, size_t) { new (p) C{}; }
+    static void ctorV(void* p, const std::vector<T>& v) {
+        switch (v.size()) {
+            case 2: new (p) C{v[0], v[1]}; break;
+            case 3: new (p) C{v[0], v[1], v[2]}; break;
+            default: throw bad_args("ctorV arity");
+        }
+    }
+    static void push(C&, const T&) {}
+    static void pushAt(C&, size_t) {}
+    static void resize(C&, size_t) {}
+    static size_t size(const C& c) { return (size_t)c.size(); }
+    static size_t limit(const C&) { return ARR_N; }
+    static const T& get(const C& c, size_t i) { return c.at(i); }
+    static void set(C& c, size_t i, const T& v) { c[i] = v; }
+    static std::string intern(const C&) { return std::to_string(ARR_N) + ":"; }
+};
+
 template <template <typename> class K> static std::string by_elem(const std::string& e, const std::vector<op_t>& ops) {
     if (e == "int") return run_history<K<int>>(ops);
     if (e == "double") return run_history<K<double>>(ops);
@@ -196,5 +266,7 @@ std::string handle(const std::string& op, const Args& a) {
     std::string kind = get(a, "kind"), e = has(a, "elem") ? get(a, "elem") : "int";
     auto ops = parse_ops(get(a, "ops"));
     if (kind == "vec") return by_elem<vec_kind>(e, ops);
+    if (kind == "svec") return by_elem<svec_kind>(e, ops);
+    if (kind == "arr") return by_elem<arr_kind>(e, ops);
     return "unknown-op";
 }
